@@ -98,6 +98,8 @@ class RealEmitter:
                 return (f'(map {table_v[f]} {a})', 'V') if ta == 'V' else (f'({table_v[f]} {a})', 'S')
             if f == 'np.sum' and ta == 'V':
                 return f'(rsum {a})', 'S'
+            if f in ('spsp.logsumexp', 'scipy.special.logsumexp', 'logsumexp') and ta == 'V':
+                return f'(ln (rsum (map exp {a})))', 'S'     # log(sum(exp(z))); the library shifts by max(z) for range reasons, same real function
             if f in ('spsp.softmax', 'scipy.special.softmax', 'softmax') and ta == 'V':
                 return f'(softmax {a})', 'V'
             self.fail(n, 'call')
